@@ -32,7 +32,14 @@ struct Shared {
     phase: AtomicU64,
     stop: AtomicBool,
     failure: Mutex<Option<String>>,
+    /// content of the bystander index when the case has one
+    stable: Option<Items>,
 }
+
+/// A built index the writer never touches and, right after it in key order, an index the writer only
+/// stages items into, builds now and then, and clears: what happens there must not show through.
+const STABLE: u16 = 7000;
+const NOISE: u16 = 7001;
 
 fn fail(sh: &Shared, msg: String) {
     let mut f = sh.failure.lock().unwrap();
@@ -67,6 +74,21 @@ fn check_snapshot<D: Distance>(
     qseed: u64,
     c: &mut Counters,
 ) -> Result<(u64, Vec<Vec<(u32, f32)>>), String> {
+    if let Some(items) = &sh.stable {
+        // the bystander index is committed once and never written again: every snapshot shows it whole
+        let mut m = IndexModel::new(STABLE, metric, dims);
+        m.items = items.clone();
+        m.has_metadata = true;
+        let r = Reader::<D>::open(rtxn, STABLE, adb::<D>(db)).map_err(|e| format!("bystander index {STABLE} (built, committed, never written again; {} items) does not open on a snapshot: {e:?}", items.len()))?;
+        if r.n_items() != items.len() as u64 {
+            return Err(format!("bystander index {STABLE}: {} items on a snapshot, {} were committed", r.n_items(), items.len()));
+        }
+        let probe: Vec<u32> = m.items.keys().copied().collect();
+        engine::check_store::<D>(rtxn, db, &m, &probe, true, c).map_err(|e| format!("bystander index {STABLE}: {e}"))?;
+        let mut qrng = StdRng::seed_from_u64(qseed ^ 7);
+        engine::check_exact::<D>(rtxn, db, &m, &mut qrng, 1, true, c).map_err(|e| format!("bystander index {STABLE}: {e}"))?;
+        c.inc("bystander_snapshots");
+    }
     let reader = Reader::<D>::open(rtxn, index, adb::<D>(db)).map_err(|e| format!("Reader::open on a snapshot failed: {e:?}"))?;
     let sv = reader.item_vector(rtxn, SENTINEL).map_err(|e| format!("{e:?}"))?.ok_or("sentinel item missing from the snapshot")?;
     let v = decode_sentinel(&sv);
@@ -76,7 +98,7 @@ fn check_snapshot<D: Distance>(
     m.has_metadata = true;
     let probe: Vec<u32> = m.items.keys().copied().take(8).collect();
     engine::check_store::<D>(rtxn, db, &m, &probe, true, c).map_err(|e| format!("snapshot of version {v}: {e}"))?;
-    let d = rawdb::dump(rtxn, db)?;
+    let d = rawdb::dump_of_index(&rawdb::dump(rtxn, db)?, index);
     let decl = |i: u16| if i == index { Some((metric, dims)) } else { None };
     let dec = rawdb::decode(&d, &decl).map_err(|e| format!("snapshot of version {v} does not decode: {e}"))?.remove(&index).unwrap_or_default();
     forest::check_forest(&dec, dims, metric.disk_name()).map_err(|e| format!("snapshot of version {v}: {e}"))?;
@@ -220,6 +242,28 @@ fn writer_loop<D: Distance>(world: &World, index: u16, metric: Metric, dims: usi
                 nap(&mut rng);
             }
         }
+        if sh.stable.is_some() {
+            let nw = Writer::<D>::new(adb::<D>(world.db), NOISE, dims);
+            match rng.gen_range(0..20) {
+                0..=7 => {
+                    for _ in 0..rng.gen_range(1..4) {
+                        let vec: Vec<f32> = (0..dims).map(|_| rng.gen_range(-1.0f32..1.0)).collect();
+                        nw.add_item(&mut wtxn, rng.gen_range(0..40u32), &vec).unwrap();
+                    }
+                    c.inc("noise_index_staged");
+                }
+                8..=9 => {
+                    let mut r = StdRng::seed_from_u64(v);
+                    let _ = nw.builder(&mut r).n_trees(1).build(&mut wtxn);
+                    c.inc("noise_index_built");
+                }
+                10 => {
+                    let _ = nw.clear(&mut wtxn);
+                    c.inc("noise_index_cleared");
+                }
+                _ => {}
+            }
+        }
         let sv = sentinel_vec(dims, v);
         w.add_item(&mut wtxn, SENTINEL, &sv).unwrap();
         model.insert(SENTINEL, sv);
@@ -298,7 +342,28 @@ fn run_case<D: Distance>(cs: u64, metric: Metric, dims: usize, index: u16, n_rea
         w.builder(&mut r).n_trees(2).split_after(5).build(&mut wtxn).map_err(|e| format!("{e:?}"))?;
         wtxn.commit().unwrap();
     }
+    // half of the cases share the environment with a bystander index (empty in half of those)
+    let stable: Option<Items> = if cs & 0x400 != 0 && index != STABLE && index != NOISE {
+        let mut items: Items = BTreeMap::new();
+        let mut wtxn = world.env.write_txn().unwrap();
+        let w = Writer::<D>::new(adb::<D>(world.db), STABLE, dims);
+        if cs & 0x800 != 0 {
+            for id in 0..6u32 {
+                let vec: Vec<f32> = (0..dims).map(|_| rng.gen_range(-1.0f32..1.0)).collect();
+                w.add_item(&mut wtxn, id * 3, &vec).unwrap();
+                items.insert(id * 3, vec);
+            }
+        }
+        let mut r = StdRng::seed_from_u64(2);
+        w.builder(&mut r).n_trees(2).split_after(3).build(&mut wtxn).map_err(|e| format!("{e:?}"))?;
+        wtxn.commit().unwrap();
+        c.inc(if items.is_empty() { "cases_with_empty_bystander" } else { "cases_with_bystander" });
+        Some(items)
+    } else {
+        None
+    };
     let sh = Shared {
+        stable,
         models: Mutex::new([(0u64, m0)].into_iter().collect()),
         commit_started: AtomicU64::new(0),
         committed: AtomicU64::new(0),
@@ -383,8 +448,8 @@ pub fn run(args: &Args) {
         .set("counters", c.to_json())
         .set("sigs", J::Arr(sigs.iter().map(|s| J::s(format!("{s:x}"))).collect()))
         .set("samples", J::Arr(samples))
-        .set("rule", J::s("case = one environment, one writer thread producing versions (1-30 updates + sentinel + build in a local rayon pool of 1-4 threads with seeded noise at hook points, then commit; or abort after a successful or cancelled build) and 2-6 reader threads opening snapshots at random moments; each snapshot is identified by its sentinel, must lie between the last commit that returned before the open and the last commit started, and is compared as a whole with that version's model (ids, vectors, C01 walker on a raw dump through the same read txn, exact queries), again after holding it across later commits; non-trivial+distinct = distinct (version observed, writer phase at open) pairs"))
-        .set("required", J::Arr(["snapshots", "snapshots_writer_phase_building", "snapshots_writer_phase_committing", "snapshots_held_across_commits", "swap_versions", "cases_light_readers", "versions_committed", "aborts_after_successful_build", "aborts_after_cancelled_build", "abort_dumps_compared"].iter().map(|s| J::s(*s)).collect()))
+        .set("rule", J::s("case = one environment, one writer thread producing versions (1-30 updates + sentinel + build in a local rayon pool of 1-4 threads with seeded noise at hook points, then commit; or abort after a successful or cancelled build) and 2-6 reader threads opening snapshots at random moments; in half of the cases the environment also holds a bystander index (built once, empty or 6 items, never written again; every snapshot must show it whole) followed in key order by a noise index the writer stages items into, builds and clears inside the same transactions; each snapshot is identified by its sentinel, must lie between the last commit that returned before the open and the last commit started, and is compared as a whole with that version's model (ids, vectors, C01 walker on a raw dump through the same read txn, exact queries), again after holding it across later commits; non-trivial+distinct = distinct (version observed, writer phase at open) pairs"))
+        .set("required", J::Arr(["snapshots", "snapshots_writer_phase_building", "snapshots_writer_phase_committing", "snapshots_held_across_commits", "swap_versions", "bystander_snapshots", "cases_with_empty_bystander", "noise_index_staged", "cases_light_readers", "versions_committed", "aborts_after_successful_build", "aborts_after_cancelled_build", "abort_dumps_compared"].iter().map(|s| J::s(*s)).collect()))
         .set("wall_s", J::Num(t0.elapsed().as_secs_f64()));
     emit("SUMMARY", &j);
 }
